@@ -285,6 +285,24 @@ class CommentsAttr(Attr):
         super(CommentsAttr, self).__init__(attr=attr, value=value, pos=pos)
 
 
+class LabelAttr(Attr):
+    """
+    Yield the Identifier that names a label.  Labels are not variables
+    and live in a namespace of their own, so unlike the Identifier seen
+    through Attr, the name is never resolved (i.e. subjected to any
+    renaming done for variables).
+    """
+
+    definition = (CommentsAttr(), Attr('value'))
+
+    def __call__(self, walk, dispatcher, node):
+        value = self._getattr(dispatcher, node)
+        if is_empty(value):
+            return
+        for chunk in walk(dispatcher, value, self.definition):
+            yield chunk
+
+
 class Text(Token):
     """
     Simply leverage the dispatcher object for generating the rendering
